@@ -696,6 +696,11 @@ func (t *FnTrans) callWrites(c *ssa.CallCommon, l *loopInfo) {
 	} else if p, ok := c.Value.(*ssa.Phi); ok && t.ct != nil && p.Comment != "" && t.ct.Callback[p.Comment] != nil {
 		ct = t.ct.Callback[p.Comment]
 	} else if u, ok := c.Value.(*ssa.UnOp); ok && t.ct != nil {
+		if ia, ok := u.X.(*ssa.IndexAddr); ok {
+			if pr, ok := ia.X.(*ssa.Parameter); ok && t.ct.Callback[pr.Name()] != nil {
+				ct = t.ct.Callback[pr.Name()]
+			}
+		}
 		if fv, ok := u.X.(*ssa.FreeVar); ok && t.ct.Callback[fv.Name()] != nil {
 			ct = t.ct.Callback[fv.Name()]
 		} else if fa, ok := u.X.(*ssa.FieldAddr); ok {
